@@ -49,7 +49,7 @@ def make_jobs(tier, seed, scale, avoid, unreachable):
     ns = shape_count()
     n4 = sum((1 + 2 * n) ** n for n in range(1, 5))  # shapes with <= 4 body blocks
     if tier == "quick":
-        nx64, chunk = int(16000 * scale), 125
+        nx64, chunk = int(30000 * scale), 250
         first = rng.below(1 << 30)
         for i in range(0, nx64, chunk):
             add("x64", first + i, min(chunk, nx64 - i), ["--shrink", "250"])
@@ -58,25 +58,25 @@ def make_jobs(tier, seed, scale, avoid, unreachable):
         nsh = int(n4 * min(1.0, scale))
         for i in range(0, nsh, 150):
             add("shapes", i, min(150, nsh - i), ["--shrink", "150"])
-        for k in range(int(48 * scale) or 1):
+        for k in range(int(96 * scale) or 1):
             add("shapes", n4 + rng.below(ns - n4 - 125), 125, ["--shrink", "150"])
-        for k in range(int(40 * scale) or 1):
+        for k in range(int(96 * scale) or 1):
             add("shapes", ns + rng.below(ns - 100), 100, ["--shrink", "150"])
-        for k in range(int(40 * scale) or 1):
+        for k in range(int(96 * scale) or 1):
             add("shapes", 2 * ns + rng.below(ns - 100), 100, ["--shrink", "150"])
-        nx86 = int(2000 * scale)
+        nx86 = int(3600 * scale)
         f86 = rng.below(1 << 30)
         for i in range(0, nx86, 100):
             add("x86", f86 + i, min(100, nx86 - i))
-        na64 = int(1500 * scale)
+        na64 = int(3000 * scale)
         fa = rng.below(1 << 30)
         for i in range(0, na64, 100):
             add("a64", fa + i, min(100, na64 - i))
-        nl = int(1500 * scale)
+        nl = int(3000 * scale)
         fl = rng.below(1 << 30)
         for i in range(0, nl, 75):
             add("a64lists", fl + i, min(75, nl - i))
-        add("x86lists", rng.below(1 << 30), int(300 * scale) or 1)
+        add("x86lists", rng.below(1 << 30), int(600 * scale) or 1)
     else:
         nx64, chunk = int(80000 * scale), 500
         first = rng.below(1 << 30)
